@@ -274,6 +274,54 @@ def run_job(job, ctx):
                             witness={"files": files_text(files, 800), "expected": want, "observed": res.brief(3000), "job": job}))
         else:
             out.append(Case(HELD, key=key, nontrivial=True, sets=sets, counters={"together_runs": 1, "together_files": len(files)}))
+        # the same bytes under names of different grammars, examined in ONE run (scan, and diff naming all of them): every file must
+        # be listed exactly as if it were alone - what a file yields depends on its own name, not on another file with equal content
+        sfx = [x for x in r.sample(langs.ALL_SUFFIXES, 12) if x != "swift"]
+        same = {}
+        for x in sfx:
+            same[r.choice(["", "d/", "e.f/"]) + langs.file_name_for(x, "same")] = FINGERPRINT.encode()
+        same["notes/same.txt"] = FINGERPRINT.encode()
+        alone = {}
+        for n in same:
+            g = grammar_for(n, {})
+            if g is None:
+                alone[n] = ("none",)
+            else:
+                fp = fingerprint(_list(ctx, REF_NAME[g], FINGERPRINT.encode(), []), REF_NAME[g])
+                alone[n] = fp
+        for mode in ("scan", "diff"):
+            order = list(same)
+            r.shuffle(order)
+            root = run.make_repo({n: same[n] for n in order})
+            try:
+                if mode == "scan":
+                    res = run.run(ctx.bin("rel"), ["list"], root, stdin=None, env=dict(TERM))
+                else:
+                    nl = FINGERPRINT.count("\n")
+                    body = "".join("+" + l + "\n" for l in FINGERPRINT.split("\n")[:nl])
+                    d = "".join("diff --git a/%s b/%s\nnew file mode 100644\n--- /dev/null\n+++ b/%s\n@@ -0,0 +1,%d @@\n%s" % (n, n, n, nl, body) for n in order)
+                    res = run.run(ctx.bin("rel"), ["list"], root, stdin=d.encode(), env={})
+            finally:
+                run.rm(root)
+            key = h(["same-bytes", sorted(same), mode])
+            sets = {"shape": ["same-bytes-together/" + mode], "grammar": ["many"]}
+            listing = res.listing() if res.cls == "ok" else None
+            bad = []
+            if listing is not None:
+                for n in same:
+                    got = ("none",) if n not in listing else ("blocks", tuple((b.get("name"), b.get("line"), b.get("column")) for b in listing[n]))
+                    want = alone[n] if alone[n][0] != "blocks" else ("blocks", alone[n][1])
+                    if got != want and not (want[0] == "error"):
+                        bad.append((n, str(want)[:80], str(got)[:80]))
+            # a grammar under which the fingerprint is unbalanced makes the whole run fail: then the run must fail too
+            must_fail = any(a[0] == "error" for a in alone.values())
+            if (listing is None) != must_fail or bad:
+                out.append(Case(VIOLATED, key=key, nontrivial=True, sets=sets, sig="C16/same-bytes-together/%s" % ("run-" + res.cls if listing is None or must_fail else "blocks-differ"),
+                                summary="%d files with identical bytes in one %s run: %s; files listed differently than alone: %s; stderr %s" % (
+                                    len(same), mode, res.cls, bad[:3], res.err_text()[:200]),
+                                witness={"names": sorted(same), "content": FINGERPRINT, "alone": {n: str(v) for n, v in alone.items()}, "observed": res.brief(3000), "job": job}))
+            else:
+                out.append(Case(HELD, key=key, nontrivial=True, sets=sets, counters={"same_bytes_runs": 1}))
     elif k == "unknown":
         for name in ("GNUmakefile", "README", "Dockerfile", "x", "x.", "x.txt", "x.PY", "x.Py", "MAKEFILE", "x.makefile.in",
                      "go.mod.bak", "x.d", "x.mod", "x.sum", "d.ts.map", "x.rs~", "x.yaml.j2", "x.c++", "x.hpp", "py", "x.py "):
